@@ -46,11 +46,11 @@ def scalarize(g, w):
 
 def cases(tier, seed):
     out = []
-    reps = 1 if tier == 'quick' else 4
+    reps = 1 if tier == 'quick' else 20
     for (name, shape, dom, f) in vector_programs():
         for rep in range(reps):
             out.append({'kind': 'hist', 'seed': case_seed('C06', seed, name, rep), 'params': {'prog': name, 'len': 6 if tier == 'quick' else 10}})
-    for i in range(60 if tier == 'quick' else 1500):
+    for i in range(60 if tier == 'quick' else 8000):
         out.append({'kind': 'hist', 'seed': case_seed('C06', seed, 'comp', i), 'params': {'prog': 'comp', 'len': 6 if tier == 'quick' else 10}})
     return out
 
